@@ -52,9 +52,37 @@ def m_vec_new(eng, ctx, f, path, args, dty):
     return Native("vec", [])
 
 
+def _hw_key(p):
+    return "hw:" + repr((p.root, p.path)) if isinstance(p, Ptr) else "hw:?"
+
+
+def note_growth(eng, ctx, p, segs):
+    """high-water mark of a byte buffer's length (a Vec never shrinks its allocation on clear/truncate)"""
+    k = _hw_key(p)
+    t = total(segs)
+    old = ctx.statics.get(k, z3.IntVal(0))
+    ctx.statics[k] = z3.If(t > old, t, old)
+
+
+def m_capacity(eng, ctx, f, path, args, dty):
+    """Vec::capacity: at least the largest length the buffer has had (clear/truncate keep the allocation), at most twice that
+    (amortised doubling) or a small constant"""
+    b = bytes_at(eng, ctx, args[0])
+    hw = ctx.statics.get(_hw_key(args[0]), z3.IntVal(0))
+    cap = fresh_len(eng, 0, 1 << 42, "capacity")
+    ctx.pc.append(z3.And(cap >= total(b.data), cap >= hw, cap <= z3.If(2 * hw > 64, 2 * hw, 64)))
+    return cap
+
+
+def m_shrink(eng, ctx, f, path, args, dty):
+    return UNIT
+
+
 def m_extend(eng, ctx, f, path, args, dty):
     b = bytes_at(eng, ctx, args[0])
-    eng.store_ptr(ctx, args[0], Native("bytes", b.data + as_segs(eng, ctx, args[1])))
+    new = b.data + as_segs(eng, ctx, args[1])
+    eng.store_ptr(ctx, args[0], Native("bytes", new))
+    note_growth(eng, ctx, args[0], new)
     return UNIT
 
 
@@ -64,6 +92,7 @@ def m_push(eng, ctx, f, path, args, dty):
         x = args[1]
         lab = "byte:" + (chr(concrete(x)) if is_concrete(x) and 32 <= concrete(x) < 127 else ("\\n" if is_concrete(x) and concrete(x) == 10 else "?"))
         eng.store_ptr(ctx, args[0], Native("bytes", v.data + [(lab, 1)]))
+        note_growth(eng, ctx, args[0], v.data + [(lab, 1)])
         return UNIT
     if isinstance(v, Native) and v.kind == "vec":
         eng.store_ptr(ctx, args[0], Native("vec", v.data + [args[1]]))
@@ -286,11 +315,13 @@ def m_deref_load(eng, ctx, f, path, args, dty):
 
 
 BYTES_MODELS = {
-    r"^Vec::new$": m_vec_new,
+    r"^Vec::new$|^Vec::with_capacity$": m_vec_new,
     r"^Vec::extend_from_slice$": m_extend,
     r"^Vec::push$": m_push,
     r"^Vec::len$|^core::str::len$|ExactSizeIterator>::len$": m_len,
     r"^Vec::truncate$": m_truncate,
+    r"^Vec::capacity$": m_capacity,
+    r"^Vec::(shrink_to_fit|shrink_to|reserve|reserve_exact)$": m_shrink,
     r"^Vec::clear$": m_clear,
     r"^Vec::drain$": m_drain,
     r"^<Vec as IndexMut>::index_mut$": m_index_mut,
